@@ -131,7 +131,7 @@ def gen_cors(rnd):
 
 def gen_origin(rnd, origins):
     pool = ["https://foo.example", "https://foo", "", "https://evil.example", "https://bar.example", "example", "https://foo.example,https://bar.example",
-            "HTTPS://FOO.EXAMPLE", ",", "https://foo.example,", "a", "b", "a,b", "foo.example"]
+            "HTTPS://FOO.EXAMPLE", ",", "https://foo.example,", "a", "b", "a,b", "foo.example", "https://foo.example: 8443", "https://bar.example: x", "a: b", " https://foo.example", "https://foo.example "]
     return rnd.choice(pool)
 
 
